@@ -525,7 +525,12 @@ func rulesC05(c *Ctx) {
 			x, y, op, ok := binaryCmp(a.E)
 			return ok && op == token.EQL && a.Val && h.IsField(x, mF) && h.ObjOf(y) == mL
 		}) && h.heldLocal(ws[0])["ServerSession.mu"], "handle:listen-id-recorded-before-dispatch", h, ws[0], "the id of a subscriptions/listen request is appended to listenIDs (under ss.mu) before handleReceive runs")
-		// the listen branch covers every listen request: condition false-branch must not skip for listen — checked by guard equality above
+		// ... for every listen request: the method test is the only test in front of the recording (a further conjunct —
+		// "and the session is initialized", "and the id is not known yet" — leaves some parked listen that Close cannot
+		// cancel, and Close then waits for it forever)
+		if nl, what := hg.semanticLeaves(wv); true {
+			c.Check(nl == 1, "handle:listen-id-recorded-for-every-listen", h, ws[0], "one test guards the recording of a listen id (found %d: %s)", nl, what)
+		}
 	})
 
 	c.Rule("R-C05-5", "disconnect forgets the session everywhere: every Server/Client field that can hold a session is purged, and OnDone calls disconnect", func() {
